@@ -79,12 +79,35 @@ func acceptPoints(fn *ssa.Function) []AcceptPoint {
 // isErrorValue: the value is certainly a non-nil error (a load of a
 // package-level error variable that is initialised once, a fresh error from
 // errors.New / fmt.Errorf, or a MakeInterface).
+var errorBuilderDepth int
+
 func isErrorValue(v ssa.Value) bool {
 	switch x := v.(type) {
 	case *ssa.MakeInterface:
 		return true
 	case *ssa.Call:
-		return staticCalleeIs(&x.Call, "errors.New", "fmt.Errorf")
+		if staticCalleeIs(&x.Call, "errors.New", "fmt.Errorf") {
+			return true
+		}
+		// a function with source whose single result is an error and whose every return yields a definite error
+		// (an error-building helper)
+		if cal := x.Call.StaticCallee(); cal != nil && len(cal.Blocks) > 0 && cal.Signature.Results().Len() == 1 && errorBuilderDepth < 3 {
+			if types.Identical(cal.Signature.Results().At(0).Type(), types.Universe.Lookup("error").Type()) {
+				errorBuilderDepth++
+				defer func() { errorBuilderDepth-- }()
+				rets := returnsOf(cal)
+				if len(rets) == 0 {
+					return false
+				}
+				for _, ret := range rets {
+					if !isErrorValue(ret.Results[0]) {
+						return false
+					}
+				}
+				return true
+			}
+		}
+		return false
 	case *ssa.UnOp:
 		if g, ok := x.X.(*ssa.Global); ok {
 			// package-level Err… variable
